@@ -106,6 +106,7 @@ def match_known(mod, known, case, vio):
 
 
 STDERR_CAPTURE = [None]
+HANG_CONFIRMED = [False]
 
 
 def run_forked(mod, case, timeout=None):
@@ -146,13 +147,15 @@ def run_forked(mod, case, timeout=None):
             os.kill(pid, signal.SIGKILL)
             os.waitpid(pid, 0)
             os.close(r)
-            if first_attempt and getattr(mod, "HANG_RETRY_FACTOR", 0):
+            if first_attempt and getattr(mod, "HANG_RETRY_FACTOR", 0) and not HANG_CONFIRMED[0]:
                 # a hang candidate is re-run once with a larger budget before it is reported; if it then returns it was
-                # slow, not hung (tagged, so that the evidence shows it)
+                # slow, not hung (tagged, so that the evidence shows it).  Once a hang is confirmed in this worker, later
+                # timeouts (Hypothesis shrinking the hanging case) are reported after the base budget.
                 res = run_forked(mod, case, timeout * mod.HANG_RETRY_FACTOR)
                 if isinstance(res, dict):
                     res.setdefault("tags", []).append("watchdog:slow_but_returned")
                 return res
+            HANG_CONFIRMED[0] = True
             raise Violation("hang:" + getattr(mod, "case_label", lambda c: "")(case), "case did not return within the watchdog", clause="C12-hang")
         ready, _, _ = select.select([r], [], [], min(left, 1.0))
         if ready:
